@@ -726,6 +726,16 @@ FORK_INV = frozen_clauses(lambda s: s.self._prev, 'prev') + sm_clauses(_sview) +
         s.self._session_flags._flags.has(u), _sview(s)._uids.has(u)))),
 ]
 
+def _set_add_replacing(ex, frame, e):
+    """selected_set.add(copy, replace=self): the forked-from object leaves the weak set at once (C17: an object that is only
+    waiting to be collected would still be handed out by any_selected)"""
+    args, kw = ex.eval_args(e, frame)
+    rep = kw.get('replace')
+    me = ex.frames[0].env['self']
+    ex.st.ghost['replaced_self'] = isinstance(rep, VRec) and rep.rid == me.rid
+    return VNone()
+
+
 fork = Contract(
     'C01', F, 'SelectedMailbox.fork', variant='after-a-previous-fork', params=dict(self=SELP, command=RefS('Cmd')),
     requires=FORK_INV,
@@ -734,8 +744,11 @@ fork = Contract(
               (s.self._hide_expunged == s.old.self._hide_expunged))],
     calls={'_Frozen': _frozen_ctor, 'self._compare': _compare_call, 'type': lambda ex, frame, e, base=None: VConst('cls'),
            'cls': lambda ex, frame, e, base=None: (ex.eval_args(e, frame), RefS('SelectedCopy').fresh('copy'))[1],
-           'getattr': lambda ex, frame, e, base=None: VBool(z3.Bool(fresh_name('with_uid')))},
+           'getattr': lambda ex, frame, e, base=None: VBool(z3.Bool(fresh_name('with_uid'))),
+           'self._selected_set.add': lambda ex, frame, e, base=None: _set_add_replacing(ex, frame, e)},
     modifies=[], raises_only=())
+fork.ensures = fork.ensures + [('the_copy_takes_this_objects_place_in_the_selected_set',
+                                lambda s: VBool(s._st.ghost.get('replaced_self', False)))]
 CONTRACTS_LINK = [add_updates, frozen_init, fork]
 
 
